@@ -697,19 +697,48 @@ func spinningRepoFrame(dump string) string {
 }
 
 func (s *S) waitIdle() {
+	for {
+		// a token on s.idle says "the count of running threads reached zero at some moment"; threads spawned
+		// before Run (several s.Go calls) can leave a token behind while a later one is still on its way to its
+		// first park, so the count itself is what decides
+		s.mu.Lock()
+		quiet := s.awake == 0
+		s.mu.Unlock()
+		if quiet {
+			select { // drop a stale token
+			case <-s.idle:
+			default:
+			}
+			return
+		}
+		if s.waitToken() {
+			continue
+		}
+	}
+}
+
+// waitToken blocks until some thread reports that the count reached zero (true), or deals with the watchdog.
+func (s *S) waitToken() bool {
 	select {
 	case <-s.idle:
-		return
+		return true
 	default:
 	}
 	if s.watchdog == nil {
 		s.watchdog = time.NewTimer(120 * time.Second)
 	} else {
+		if !s.watchdog.Stop() {
+			select {
+			case <-s.watchdog.C:
+			default:
+			}
+		}
 		s.watchdog.Reset(120 * time.Second)
 	}
 	select {
 	case <-s.idle:
 		s.watchdog.Stop()
+		return true
 	case <-s.watchdog.C:
 		buf := make([]byte, 1<<20)
 		n := runtime.Stack(buf, true)
@@ -719,6 +748,7 @@ func (s *S) waitIdle() {
 		fmt.Fprintf(os.Stderr, "HARNESS-ERROR: a thread blocked outside the scheduler's hooks for 120s\n%s\n", buf[:n])
 		os.Exit(2)
 	}
+	return true
 }
 
 func (s *S) loop() Outcome {
